@@ -221,6 +221,21 @@ fn eval_prefix(prefixes: &BTreeMap<String, Numeric>, expr: &Expr) -> Result<Nume
     }
 }
 
+/// Raises a dimensionality to a power, keeping the exponents of the base
+/// units within i32 like `Number::pow` does.
+fn quantity_pow(dim: Dimensionality, exp: i64) -> Result<Dimensionality, String> {
+    let fits = dim.iter().all(|(_, &power)| {
+        power
+            .checked_mul(exp)
+            .map_or(false, |power| power.abs() <= i32::MAX as i64)
+    });
+    if fits {
+        Ok(dim.pow(exp))
+    } else {
+        Err("RHS of `^` is too big".to_string())
+    }
+}
+
 fn eval_quantity(
     base_units: &BTreeSet<BaseUnit>,
     quantities: &BTreeMap<String, Dimensionality>,
@@ -266,7 +281,7 @@ fn eval_quantity(
                     let value = value
                         .to_int()
                         .ok_or_else(|| "RHS of `^` is too big".to_string())?;
-                    Ok(left.pow(value))
+                    quantity_pow(left, value)
                 }
                 Expr::UnaryOp(UnaryOpExpr {
                     op: UnaryOpType::Negative,
@@ -276,7 +291,7 @@ fn eval_quantity(
                         let value = -value
                             .to_int()
                             .ok_or_else(|| "RHS of `^` is too big".to_string())?;
-                        Ok(left.pow(value))
+                        quantity_pow(left, value)
                     } else {
                         Err(format!("RHS of `^` must be a constant: {expr}"))
                     }
